@@ -178,7 +178,7 @@ def _ctx():
 
 def pattern_text(p, V=None) -> str:
     V = V or vocab(p)
-    out = ["pdl.pattern : benefit(1) {"]
+    out = ["pdl.pattern " + (f"@{p['name']} " if p.get("name") else "") + ": benefit(1) {"]
     for i, c in enumerate(p["tvars"]):
         out.append(f"  %t{i} = pdl.type" + (f" : {V.types[c]}" if c is not None else ""))
     for i, c in enumerate(p["avars"]):
@@ -283,7 +283,9 @@ def dump_payload(module, V):
     operands by (block-arg index | position of defining op, result index), names, attrs, props, result types."""
     from xdsl.dialects import func
     from xdsl.ir import BlockArgument, OpResult
-    f = next(o for o in module.body.block.ops if isinstance(o, func.FuncOp))
+    f = next((o for o in module.body.block.ops if isinstance(o, func.FuncOp)), None)
+    if f is None or not f.body.blocks:
+        return [[99]]           # the function holding the payload itself was erased
     block = f.body.block
     body = [o for o in block.ops if not isinstance(o, func.ReturnOp)]
     pos = {id(o): i for i, o in enumerate(body)}
@@ -646,7 +648,64 @@ def gen_pattern(rng, maxdepth=2):
     root = gen_op(0, True)
     p = {"tvars": tvars, "avars": avars, "ovars": ovars, "root": root, "rw": []}
     p["rw"] = gen_rewrite(rng, p)
+    # pattern symbol names: the lowering names the rewriter function after the pattern, next to the function
+    # `matcher` and the module `rewriters`; unnamed patterns get `pdl_generated_rewriter`
+    if rng.random() < 0.35:
+        p["name"] = rng.choice(PATTERN_NAMES)
     return p
+
+
+PATTERN_NAMES = ["matcher", "matcher", "rewriters", "pdl_generated_rewriter", "pdl_generated_rewriter_0", "finalize", "p"]
+
+
+def gen_shared_case(rng):
+    """ONE pdl.attribute / pdl.type value (constant or not) constrains two operations (the root and the operation
+    defining one of its operands, or two nested operations); the payload is an exact instance in which, two times
+    out of three, exactly ONE of the two positions is broken (the other still carries the literal / the equal value)"""
+    kind = rng.choice(["attr", "attr", "type"])
+    const = rng.random() < 0.6
+    tvars, avars = [None], []
+    n1, n2 = rng.randrange(4), rng.randrange(4)
+    if kind == "attr":
+        avars.append(rng.choice([0, -1, 1, 2, 3, 5]) if const else None)
+        a_root, a_sub, t_root, t_sub = [[n1, 0]], [[n2, 0]], 0, 0
+        tvars = [None, None]
+        t_root, t_sub = 0, 1
+    else:
+        tvars = [rng.randrange(4) if const else None]
+        a_root, a_sub, t_root, t_sub = [], [], 0, 0
+    sub = {"id": 0, "name": rng.randrange(4), "attrs": a_sub, "operands": [], "rtys": [t_sub]}
+    shape = rng.randrange(3)
+    ovars = []
+    if shape == 0:      # root -> sub
+        root = {"id": 1, "name": rng.randrange(4), "attrs": a_root, "operands": [["res", 0, 0, sub]], "rtys": [t_root]}
+    elif shape == 1:    # root(free, sub)
+        ovars = [None]
+        root = {"id": 1, "name": rng.randrange(4), "attrs": a_root, "operands": [["free", 0], ["res", 0, 0, sub]], "rtys": [t_root]}
+    else:               # root(sub1, sub2): the two constrained operations are siblings
+        sub2 = {"id": 1, "name": rng.randrange(4), "attrs": a_root, "operands": [], "rtys": [t_root]}
+        root = {"id": 2, "name": rng.randrange(4), "attrs": [], "operands": [["res", 0, 0, sub], ["res", 1, 0, sub2]], "rtys": []}
+    p = {"tvars": tvars, "avars": avars, "ovars": ovars, "root": root, "rw": []}
+    # rewrites that do not compile to an erase of a used value: a fresh operation replaces the root
+    p["rw"] = gen_rewrite(rng, p)
+    if rng.random() < 0.3:
+        p["name"] = rng.choice(PATTERN_NAMES)
+    pl, ri = instantiate(rng, p)
+    r = rng.random()
+    if r < 0.67:
+        # positions of the two constrained payload operations: the pattern ops that carry the shared value
+        holders = [i for i, o in enumerate(pl["ops"]) if (o["attrs"] or o["props"])] if kind == "attr" else \
+                  [i for i, o in enumerate(pl["ops"]) if o["rtys"]]
+        holders = [i for i in holders if i <= ri][-3:]
+        if holders:
+            i = holders[0] if r < 0.33 else holders[-1]
+            o = pl["ops"][i]
+            if kind == "attr":
+                d = o["attrs"] if o["attrs"] else o["props"]
+                d[0][1] = rng.choice([x for x in (0, -1, 1, 2, 3, 5) if x != d[0][1]])
+            else:
+                o["rtys"][0] = (o["rtys"][0] + 1 + rng.randrange(3)) % 4
+    return p, pl
 
 
 def gen_rewrite(rng, p):
@@ -968,6 +1027,8 @@ def classify(case, d, c):
         out.append("C27-kf-2")      # both rewrite, the direct one with results[index] instead of the operand
     if _dup_attr_prop(p, pl) and not (d[0] == 2 and c[0] != 2):
         out.append("C27-kf-6")
+    if _named_matcher(p) and c[0] == 2 and d[0] == 1:
+        out.append("C27-kf-7")
     for k in out:
         if k in ACTIVE:
             return k
@@ -1228,6 +1289,54 @@ def run_pass(text: str, which: str, pl, V, limit: int = 60):
     return [1, dump_payload(module, V)]
 
 
+class _Timeout(Exception):
+    pass
+
+
+def run_real_pass(text: str, which: str, pl, V, tmp: Path, seconds: float = 6.0):
+    """the REAL passes end to end, as xdsl-opt runs them with the patterns in a separate file:
+    "d": ApplyPDLPass(pdl_file);  "c": ConvertPDLToPDLInterpPass on the pattern module, printed, then
+    ApplyPDLInterpPass(pdl_interp_file) (its own lookup of the `matcher` entry point, parser, interpreter set-up).
+    -> [1, dump] | [2, exc] | [4] (no fixpoint within the time limit)"""
+    import signal
+    from xdsl.parser import Parser
+    from xdsl.printer import Printer
+    from xdsl.transforms.apply_pdl import ApplyPDLPass
+    from xdsl.transforms.apply_pdl_interp import ApplyPDLInterpPass
+    from xdsl.transforms.convert_pdl_to_pdl_interp.conversion import ConvertPDLToPDLInterpPass
+    ctx = _ctx()
+    module, _ = build_payload(pl, V)
+
+    def on_alarm(signum, frame):
+        raise _Timeout()
+
+    old = signal.signal(signal.SIGALRM, on_alarm)
+    signal.setitimer(signal.ITIMER_REAL, seconds)
+    try:
+        if which == "d":
+            f = tmp / "pattern.mlir"
+            f.write_text(text)
+            ApplyPDLPass(pdl_file=str(f)).apply(ctx, module)
+        else:
+            m = Parser(ctx, text).parse_module()
+            m.verify()
+            ConvertPDLToPDLInterpPass().apply(ctx, m)
+            m.verify()
+            out = io.StringIO()
+            Printer(out).print_op(m)
+            f = tmp / "interp.mlir"
+            f.write_text(out.getvalue())
+            ApplyPDLInterpPass(pdl_interp_file=str(f)).apply(ctx, module)
+    except _Timeout:
+        return [4]
+    except BaseException as e:  # noqa: BLE001
+        return [2, exc_code(e)]
+    finally:
+        signal.setitimer(signal.ITIMER_REAL, 0)
+        signal.signal(signal.SIGALRM, old)
+    return [1, dump_payload(module, V)]
+
+
 # ---------------------------------------------------------------------------------------------
 # which of the proposed repairs are present in /repo (the model is instantiated accordingly)
 
@@ -1264,8 +1373,13 @@ W_INFER = {"p": {"tvars": [None], "avars": [], "ovars": [],
                  "root": {"id": 0, "name": 0, "attrs": [], "operands": [], "rtys": [0]},
                  "rw": [["op", 0, 1, [], [], []], ["replace_op", 0]]},
            "pl": {"args": [], "ops": [{"name": 0, "operands": [], "attrs": [], "props": [], "rtys": [1]}]}}
+W_NAME = {"p": {"tvars": [None], "avars": [], "ovars": [0], "name": "matcher",
+                "root": {"id": 0, "name": 0, "attrs": [], "operands": [["free", 0]], "rtys": [0]},
+                "rw": [["replace_vals", [["mo", 0]]]]},
+          "pl": {"args": [0], "ops": [{"name": 0, "operands": [["a", 0]], "attrs": [], "props": [], "rtys": [0]},
+                                      {"name": 3, "operands": [["r", 0, 0]], "attrs": [], "props": [], "rtys": []}]}}
 WITNESSES = {"C27-kf-1": W_FALSY, "C27-kf-2": W_RESINDEX, "C27-kf-3": W_REUSE, "C27-kf-4": W_ERASE,
-             "C27-kf-5": W_RANGE, "C27-kf-6": W_ATTRORDER}
+             "C27-kf-5": W_RANGE, "C27-kf-6": W_ATTRORDER, "C27-kf-7": W_NAME}
 
 
 def probe_fixes():
@@ -1283,6 +1397,17 @@ def probe_fixes():
     # direct half of C27-5: a typeless replacement of a root WITH a result is built with the root's result types
     fx["infer"] = impl_apply(W_INFER)[0][0][0] == 1
     return fx
+
+
+NAME_OK = True      # a pattern whose symbol name is `matcher` works in the converted path (C27-kf-7 repaired)
+
+
+def probe_name():
+    return impl_apply(W_NAME)[0][1][0] == 1
+
+
+def _named_matcher(p):
+    return p.get("name") == "matcher"
 
 
 # ---------------------------------------------------------------------------------------------
@@ -1312,8 +1437,10 @@ def run(ctx: Ctx):
     thorough = ctx.tier == "thorough"
     rng = ctx.rng
     ACTIVE = ctx.active_known_ids()
+    global NAME_OK
     FX = probe_fixes()
-    ctx.coverage["repairs_present_in_repo"] = dict(FX)
+    NAME_OK = probe_name()
+    ctx.coverage["repairs_present_in_repo"] = dict(FX, pattern_named_matcher=NAME_OK)
     replay_findings(ctx, "apply", lambda c: impl_apply(c), holds_apply)
 
     cases = []
@@ -1332,6 +1459,11 @@ def run(ctx: Ctx):
         cases.append({"k": "apply", "p": p, "pl": gen_payload(rng, p)})
         if rng.random() < 0.5:
             cases.append({"k": "apply", "p": p, "pl": gen_payload(rng, p)})
+    # one pdl.attribute / pdl.type value shared by two operations, payload broken at exactly one of the positions
+    for _ in range(400 if thorough else 45):
+        p, pl = gen_shared_case(rng)
+        stats["shared_value_cases"] = stats.get("shared_value_cases", 0) + 1
+        cases.append({"k": "apply", "p": p, "pl": pl})
     for _ in range(n_conv):
         p = gen_pattern(rng, maxdepth=rng.choice([1, 2, 3, 3]))
         if rng.random() < 0.15:
@@ -1362,6 +1494,14 @@ def run(ctx: Ctx):
     ctx.coverage["corpus"] = {"patterns_in_modelled_language": ncorp, "payloads_dropped_default_properties": unrepresentable,
                               "patterns_outside (not run: constructs outside the property's list or not implemented by interpreters/pdl.py)": skipped}
 
+    # the model knows no pattern names (they are irrelevant to both paths once C27-kf-7 is repaired): while the
+    # converted path mistakes the rewriter of a pattern named `matcher` for the entry point, that one name is
+    # kept out of the model-compared family (the oracle-only pass families below keep it, as a listed finding)
+    if not NAME_OK:
+        for c in cases:
+            if c["p"].get("name") == "matcher" and c["p"] not in [w["p"] for w in WITNESSES.values()]:
+                c["p"]["name"] = "matcher_"
+        cases = [c for c in cases if c["p"].get("name") != "matcher"]
     fam = differential(ctx, DiffSpec("convert+apply(generated,corpus)", REQ, cases, impl, coq_expr, holds, known, nontrivial,
                                      shard=120))
     ctx.coverage["generation"] = stats
@@ -1402,6 +1542,8 @@ def run(ctx: Ctx):
         # classify through the single-step outcomes of the same case
         res = impl_apply({"p": p, "pl": pl})
         kid = known_apply({"p": p, "pl": pl}, res) if not holds_apply({"p": p, "pl": pl}, res)[0] else None
+        if kid is None and _named_matcher(p) and c[0] == 2 and d[0] != 2:
+            kid = "C27-kf-7"
         if kid is None and (_compiles_to_erase(p) or _typeless_replacement(p)) and c[0] == 2:
             kid = "C27-kf-4" if _compiles_to_erase(p) else "C27-kf-5"
         if kid is None and d[0] == 4 or c[0] == 4:
@@ -1416,4 +1558,51 @@ def run(ctx: Ctx):
             ctx.violation({"family": "pass", "pattern": text, "payload": pl, "direct": d, "converted": c,
                            "oracle": "apply-pdl and convert-pdl-to-pdl-interp + apply-pdl-interp give different IR / outcome"})
     ctx.coverage.setdefault("families", {})["pass(PatternRewriteWalker to fixpoint, oracle only)"] = t_pass
+
+    # the real passes end to end with the patterns in a separate file (ApplyPDLPass / ApplyPDLInterpPass.apply:
+    # their own entry-point lookup and set-up), adversarial pattern symbol names included; oracle only
+    t_real = {"cases": 0, "equal": 0, "both_raise": 0, "skipped_no_fixpoint": 0, "failures": 0, "names": {}}
+    tmp = ctx.tmpdir()
+    # apply-pdl wraps its patterns in GreedyRewritePatternApplier, which also erases trivially dead operations;
+    # apply-pdl-interp does not.  That is a difference of the pass drivers, not of the pattern: the payloads of this
+    # family use only operations that are never trivially dead (test.op, test.op_with_memwrite)
+    vreal = dict(DEFAULT_V, ops=["test.op", "test.op_with_memwrite", "test.op", "test.op_with_memwrite"])
+    V = vocab({"vocab": vreal})
+    t_real["known"] = {}
+    for i in range(300 if thorough else 45):
+        if i % 3 == 0:
+            p, pl = gen_shared_case(rng)
+        else:
+            p = gen_pattern(rng, maxdepth=2)
+            pl = gen_payload(rng, p)
+        p["name"] = rng.choice(PATTERN_NAMES + [None, None])
+        if p["name"] is None:
+            del p["name"]
+        r = p["root"]
+        if r["name"] is None and not r["operands"] and not r["rtys"]:
+            continue        # would match func.func / func.return / builtin.module themselves
+        text = pattern_text(p, V)
+        # only patterns for which both (guarded) walkers stop
+        gd, gc = _red(run_pass(text, "d", pl, V)), _red(run_pass(text, "c", pl, V))
+        if gd[0] == 4 or gc[0] == 4:
+            t_real["skipped_no_fixpoint"] += 1
+            continue
+        d, c = _red(run_real_pass(text, "d", pl, V, tmp)), _red(run_real_pass(text, "c", pl, V, tmp))
+        t_real["cases"] += 1
+        ctx.evaluations += 1
+        nm = p.get("name") or "<unnamed>"
+        t_real["names"][nm] = t_real["names"].get(nm, 0) + 1
+        if d == c and d == gd and c == gc:
+            t_real["equal" if d[0] == 1 else "both_raise"] += 1
+            if d[0] == 1 and d[1] != dump_payload(build_payload(pl, V)[0], V):
+                ctx.nontrivial.add(("real-pass", json.dumps(p, sort_keys=True)))
+            continue
+        if _named_matcher(p) and "C27-kf-7" in ACTIVE and c[0] == 2 and gc[0] == 2 and d == gd and d[0] == 1:
+            t_real["known"]["C27-kf-7"] = t_real["known"].get("C27-kf-7", 0) + 1
+            continue
+        t_real["failures"] += 1
+        ctx.violation({"family": "real-pass", "pattern": text, "payload": pl, "apply-pdl": d,
+                       "convert-pdl-to-pdl-interp + apply-pdl-interp": c, "walker on the prepared patterns": [gd, gc],
+                       "oracle": "the real passes (patterns in a separate file) give different IR / outcome"})
+    ctx.coverage["families"]["real-pass(ApplyPDLPass / ConvertPDLToPDLInterpPass + ApplyPDLInterpPass, oracle only)"] = t_real
     ctx.coverage["rule"] = __doc__.split("\n\n", 1)[0][:200] + " ... " + __doc__[__doc__.index("Families:"):][:1400]
